@@ -100,8 +100,12 @@ def g_add_abs(rng, seq):
     if kind < 0.9:
         n, dn = rng.choice([(4, 4), (3, 4), (6, 8), (2, 4)])
         return {"msg": {"t": "time_signature", "ch": 0, "time": t, "numerator": n, "denominator": dn}}
-    if kind < 0.95:
+    if kind < 0.93:
         return {"msg": {"t": "key_signature", "ch": 0, "time": t, "key": rng.choice(music.KEYS)}}
+    if kind < 0.96:
+        return {"msg": {"t": "program_change", "ch": ch, "time": t, "program": rng.randrange(128)}}
+    if kind < 0.98:
+        return {"msg": {"t": "control_change", "ch": ch, "time": t, "control": rng.randrange(120), "velocity": rng.randrange(128)}}
     return {"msg": {"t": "internal", "ch": ch, "time": d + rng.randrange(1, 50)}}
 
 
@@ -118,10 +122,14 @@ def g_add_rel(rng, seq):
         return {"msg": {"t": "note_on", "ch": ch, "note": rng.randrange(30, 100), "velocity": rng.randrange(1, 128)}, "index": idx}
     if kind < 0.85:
         return {"msg": {"t": "note_off", "ch": ch, "note": rng.randrange(30, 100)}, "index": idx}
-    if kind < 0.93:
+    if kind < 0.92:
         n, dn = rng.choice([(4, 4), (3, 4), (6, 8), (2, 4)])
         return {"msg": {"t": "time_signature", "ch": 0, "numerator": n, "denominator": dn}, "index": idx}
-    return {"msg": {"t": "key_signature", "ch": 0, "key": rng.choice(music.KEYS)}, "index": idx}
+    if kind < 0.96:
+        return {"msg": {"t": "key_signature", "ch": 0, "key": rng.choice(music.KEYS)}, "index": idx}
+    if kind < 0.98:
+        return {"msg": {"t": "program_change", "ch": ch, "program": rng.randrange(128)}, "index": idx}
+    return {"msg": {"t": "control_change", "ch": ch, "control": rng.randrange(120), "velocity": rng.randrange(128)}, "index": idx}
 
 
 def g_seqlist(rng, seq):
@@ -155,7 +163,7 @@ def g_pad(rng, seq):
 
 
 def g_set_channel(rng, seq):
-    return {"ch": rng.randrange(0, 4)}
+    return {"ch": rng.randrange(0, 4) if rng.random() < 0.8 else rng.randrange(0, 16)}
 
 
 def g_split(rng, seq):
@@ -168,6 +176,8 @@ def g_split(rng, seq):
         caps[1] = caps[0]                      # repeated capacity
     if rng.random() < 0.03:
         caps[rng.randrange(len(caps))] = 0     # degenerate but accepted capacity
+    if rng.random() < 0.02:
+        caps = []                              # nothing to cut: one piece holding everything
     return {"caps": caps}
 
 
@@ -239,13 +249,13 @@ def g_qnl(rng, seq):
     if rng.random() < 0.2:
         return {"values": _helper_list(rng), "dne": rng.random() < 0.4}
     return {"values": rng.choice([None, None, [6, 12, 24], [12], [4, 8, 16], [24, 48], [6]]),
-            "dne": rng.random() < 0.4}
+            "dne": rng.random() < 0.4, "std": rng.choice([24, 24, 24, 12, 48])}
 
 
 def g_qan(rng, seq):
     return {"steps": _helper_list(rng) if rng.random() < 0.15 else rng.choice([None, None, [6], [4, 6]]),
             "values": _helper_list(rng) if rng.random() < 0.15 else rng.choice([None, None, [6, 12, 24]]),
-            "dne": rng.random() < 0.3}
+            "dne": rng.random() < 0.3, "std": rng.choice([24, 24, 12, 48])}
 
 
 def g_equals(rng, seq):
@@ -364,11 +374,12 @@ def a_quantise(s, a):
 
 
 def a_qnl(s, a):
-    s.quantise_note_lengths(resolve_list(a["values"]), do_not_extend=a["dne"])
+    s.quantise_note_lengths(resolve_list(a["values"]), standard_length=a.get("std", 24), do_not_extend=a["dne"])
 
 
 def a_qan(s, a):
-    s.quantise_and_normalise(resolve_list(a["steps"]), resolve_list(a["values"]), do_not_extend=a["dne"])
+    s.quantise_and_normalise(resolve_list(a["steps"]), resolve_list(a["values"]), standard_length=a.get("std", 24),
+                             do_not_extend=a["dne"])
 
 
 def _seq_canon(x):
@@ -454,14 +465,14 @@ def g_make_bar(rng, seq):
     d = _duration(seq)
     fits = [sg for sg in BAR_SIGS if 24 * 4 * sg[0] // sg[1] >= d]
     n, dn = rng.choice(fits) if fits and rng.random() < 0.9 else rng.choice(BAR_SIGS)
-    return {"sig": [n, dn], "key": rng.choice([None, None, "C", "Eb"])}
+    return {"sig": [n, dn], "key": rng.choice([None, None, "C", "Eb"]), "dch": rng.choice([0, 0, 0, 1, 9])}
 
 
 def a_make_bar(s, a):
     """Bar(sequence, n, d): the constructor drives the sequence through normalise / pad / messages_rel / overwrite /
     add_relative_message (and writes a staleness flag directly); the sequence stays the subject."""
     from scoda.elements.bar import Bar
-    b = Bar(s, a["sig"][0], a["sig"][1], Key(a["key"]) if a.get("key") else None)
+    b = Bar(s, a["sig"][0], a["sig"][1], Key(a["key"]) if a.get("key") else None, default_channel=a.get("dch", 0))
     return [b.time_signature_numerator, b.time_signature_denominator,
             b.key_signature.value if b.key_signature is not None else None, b.sequence is s]
 
